@@ -384,7 +384,7 @@ func checkListener(c *Ctx, ce *chanEngine) {
 						retTrue := false
 						if cb != nil {
 							if r, ok := cb.Instrs[len(cb.Instrs)-1].(*ssa.Return); ok && len(r.Results) == 1 {
-								if cv, ok := r.Results[0].(*ssa.Const); ok && cv.Value != nil && cv.Value.String() == "true" {
+								if cv, ok := returnedValues(r)[0].(*ssa.Const); ok && cv.Value != nil && cv.Value.String() == "true" {
 									retTrue = true
 								}
 							}
@@ -728,7 +728,7 @@ func checkLimitPredicate(c *Ctx, lim *ssa.Function, conns *types.Var) {
 					prev, b = b, b.Succs[1]
 				}
 			case *ssa.Return:
-				res := t.Results[0]
+				res := returnedValues(t)[0]
 				// `return a && b` / `a || b`: a phi whose incoming value for the path taken is a constant or a comparison
 				if ph, isPhi := res.(*ssa.Phi); isPhi && prev != nil {
 					for k, pb := range ph.Block().Preds {
